@@ -56,13 +56,25 @@ pub(crate) fn call(builtin: Builtin, args: &[Object], gc: &mut GC) -> Result<Obj
 fn call_print(args: &[Object]) -> Result<Object, Error> {
     if !args.is_empty() {
         let mut args = args.iter();
-        let mut format_str = args.next().unwrap().to_string();
+        let format_str = args.next().unwrap().to_string();
 
-        for replacement in args {
-            format_str = format_str.replacen("{}", &replacement.to_string(), 1);
+        // Replace the placeholders of the format string from left to right. Text that was substituted
+        // is never looked at again (it may contain "{}" itself).
+        let mut output = String::with_capacity(format_str.len());
+        let mut rest = format_str.as_str();
+        while let Some(pos) = rest.find("{}") {
+            match args.next() {
+                Some(replacement) => {
+                    output.push_str(&rest[..pos]);
+                    output.push_str(&replacement.to_string());
+                    rest = &rest[pos + 2..];
+                }
+                None => break,
+            }
         }
+        output.push_str(rest);
 
-        print!("{format_str}");
+        print!("{output}");
     }
 
     println!();
